@@ -632,7 +632,23 @@ func (l *Lexer) readBacktick() (string, error) {
 			break
 		}
 	}
-	return string(l.characters[position:l.position]), err
+	// A raw string runs across line ends: the carriage return of a CRLF line
+	// end is not part of it (the same source saved with LF line endings has
+	// the same string in it)
+	text := l.characters[position:l.position]
+	for i, ch := range text {
+		if ch == '\r' && i+1 < len(text) && text[i+1] == '\n' {
+			kept := make([]rune, 0, len(text))
+			for j, ch := range text {
+				if ch == '\r' && j+1 < len(text) && text[j+1] == '\n' {
+					continue
+				}
+				kept = append(kept, ch)
+			}
+			return string(kept), err
+		}
+	}
+	return string(text), err
 }
 
 func (l *Lexer) peekChar() rune {
@@ -677,7 +693,11 @@ func (l *Lexer) GetLineText(t token.Token) string {
 	for end < len(l.characters) && l.characters[end] != rune('\n') {
 		end++
 	}
-	// Return the line, excluding the newline character
+	// Return the line, excluding the newline character (and the carriage
+	// return in front of it, which is part of the line end)
+	if end > start && end < len(l.characters) && l.characters[end-1] == rune('\r') {
+		end--
+	}
 	return string(l.characters[start:end])
 }
 
